@@ -192,6 +192,27 @@ class ApiWorld(object):
         return ea, rq["payload"]["token"], rq["correlation_id"], rq["reply_to"]
 
 
+class Worlds(object):
+    """the API world lives on one simulator; the simulator's broker is process-global, so any other
+    simulator started in between (an execution probe) retires it: hand out a live one"""
+
+    def __init__(self):
+        self.w = None
+
+    def get(self):
+        import pika
+        if self.w is None or pika.broker.get() is not self.w.sim.broker:
+            if self.w is not None:
+                self.w.close()
+            self.w = ApiWorld()
+        return self.w
+
+    def close(self):
+        if self.w is not None:
+            self.w.close()
+            self.w = None
+
+
 def exec_verdict(fv, errors=None):
     if errors:
         return ("exception", errors[0][0])
@@ -515,7 +536,7 @@ def run_data(chk, w, quick):
     for c, a in zip(cases, answers):
         m = model_verdict(a)
         if c["stream"] == "api":
-            got = api_data_probe(w, c)
+            got = api_data_probe(w.get(), c)
         elif c["stream"] == "reply":
             got = reply_probe(c)
         else:
@@ -572,7 +593,7 @@ def run_defs(chk, w, quick):
     answers = common.driver(["quota\tdef\t%s\t%d" % (c["site"], c["n"]) for c in cases])
     for c, a in zip(cases, answers):
         m = model_verdict(a)
-        got = def_probe(w, c)
+        got = def_probe(w.get(), c)
         chk.count("def|" + cj([c["site"], c["n"], c.get("kind")]), True)
         chk.dist("def.%s" % c["site"])
         chk.dist("def.size.%s" % c["where"])
@@ -627,7 +648,7 @@ def run_names(chk, w, quick):
     answers = common.driver(["quota\tname\t%s\t%s" % (c["site"], pj(c["value"])) for c in cases])
     for c, a in zip(cases, answers):
         m = model_verdict(a)
-        got = name_probe(w, c)
+        got = name_probe(w.get(), c)
         chk.count("name|" + cj([c["site"], c["via"], c["value"]]), True)
         chk.dist("name.%s.%s" % (c["via"], c["tag"] if not c["tag"].startswith("len") else "length"))
         chk.dist("name.verdict.%s" % got[0])
@@ -642,7 +663,7 @@ def run_names(chk, w, quick):
     # malformed: names that are not strings are refused
     for v in (5, None, ["a"], {"a": 1}, True):
         for site in ("asyncio", "flask"):
-            got = ("accepted",) if w.valid_name[site](v) else ("refused", "InvalidName")
+            got = ("accepted",) if w.get().valid_name[site](v) else ("refused", "InvalidName")
             chk.count("name|nonstring|" + cj([site, v]), True)
             chk.dist("name.malformed")
             if got[0] != "refused":
@@ -679,6 +700,8 @@ def check_history(chk, case):
 
 def run_history(chk, quick):
     loops = ["pass-choice", "task-catch-all"] + ([] if quick else ["task-retry-and-named-catch"])
+    done = {c.get("loop") for c in common.load_corpus("C16") if c.get("op") == "hist"}   # ran with the corpus
+    loops = [lp for lp in loops if lp not in done]
     for lp in loops:
         check_history(chk, {"loop": lp})
     chk.cov["streams"]["history.loops"] = len(loops)
@@ -754,10 +777,10 @@ def run(chk):
     if off:
         chk.cov["constants_off"] = off
     # corpus of past disagreements first
-    w = ApiWorld()
+    w = Worlds()
     try:
         nc = 0
-        for c in common.load_corpus("C16"):
+        for c in sorted(common.load_corpus("C16"), key=lambda c: c.get("stream") != "api"):
             nc += 1
             replay_case(chk, w, c, quiet=True)
         chk.cov["streams"]["corpus"] = nc
@@ -791,7 +814,7 @@ def replay_case(chk, w, c, quiet=False):
     if op == "data":
         m = model_verdict(common.driver(["quota\tdata\t%s\t%d" % (c["site"], c["n"])])[0])
         cc = dict(c)
-        got = api_data_probe(w, cc) if c["stream"] == "api" else reply_probe(cc) if c["stream"] == "reply" else state_probe(cc)
+        got = api_data_probe(w.get(), cc) if c["stream"] == "api" else reply_probe(cc) if c["stream"] == "reply" else state_probe(cc)
         cb = cc.get("_callback")
         law = (law_data(c["n"]) == ("accepted",)) == (got == ("accepted",))
         if c.get("kind") == "notjson":
@@ -808,25 +831,20 @@ def replay_case(chk, w, c, quiet=False):
         return bad
     if op == "def":
         m = model_verdict(common.driver(["quota\tdef\t%s\t%d" % (c["site"], c["n"])])[0])
-        got = def_probe(w, c)
+        got = def_probe(w.get(), c)
     elif op == "name":
         m = model_verdict(common.driver(["quota\tname\t%s\t%s" % (c["site"], pj(c["value"]))])[0]) \
             if isinstance(c["value"], str) else ("refused", "InvalidName")
-        got = name_probe(w, c)
+        got = name_probe(w.get(), c)
     elif op == "hist":
+        if quiet:
+            check_history(chk, {"loop": c["loop"]})
+            return False
         r = history_probe(c)
         a = common.driver(["quota\thist\t%d\t%s" % (r["h0"], pj(r["adds"]))])[0]
-        got = {k: r[k] for k in ("status", "error", "len", "tail")}
-        m = a
-        bad = not (r["status"] == "FAILED" and r["error"] == "States.ExecutionHistoryLimitExceeded")
-        if not quiet:
-            print("impl :", got)
-            print("model:", m)
-        chk.count("corpus|" + cj(c), True)
-        if bad and quiet:
-            chk.report("impl-violates-law", c, impl=got, model=m, law="corpus case: the execution is failed at the history limit",
-                       classify=classify)
-        return bad
+        print("impl :", {k: r[k] for k in ("status", "error", "len", "tail")})
+        print("model:", a)
+        return not (r["status"] == "FAILED" and r["error"] == "States.ExecutionHistoryLimitExceeded")
     elif op == "serlen":
         d = c["doc"]
         got, m = len(json.dumps(d)), common.driver(["quota\tserlen\t" + pj(d)])[0]
@@ -853,7 +871,7 @@ def replay(chk, path):
         return 0
     c = r["case"]
     print("law  :", r.get("law"))
-    w = ApiWorld()
+    w = Worlds()
     try:
         bad = replay_case(chk, w, c)
     finally:
